@@ -1,6 +1,8 @@
 package scen
 
 import (
+	"bytes"
+	"encoding/json"
 	"fmt"
 	"sort"
 	"strings"
@@ -8,7 +10,9 @@ import (
 	"time"
 
 	"github.com/anishathalye/porcupine"
+	"github.com/cnotch/ipchub/av/format/rtp"
 	"github.com/cnotch/ipchub/media"
+	"github.com/cnotch/ipchub/provider/auth"
 
 	"verif/harness/sim"
 )
@@ -482,4 +486,169 @@ func buildC05Media(tier string) sim.Scenario {
 		}
 	}
 	return sim.Scenario{Main: main, Final: final, Cleanup: cleanup, Post: post}
+}
+
+func init() {
+	Register(&Def{
+		Prop: "C05", Name: "api", Level: "exploration",
+		Build:        buildC05API,
+		Cfg:          sim.RunConfig{Grace: 2 * time.Minute, Horizon: time.Hour, StepCap: 200000},
+		RunsQuick:    2000,
+		RunsThorough: 200000,
+		Real:         []string{"service API handlers (DELETE /api/v1/streams/{path}, GET /api/v1/streams, GET /api/v1/runtime) through the real mux and interceptors", "service/rtsp publisher and player sessions", "media registry"},
+		Stub:         []string{"TCP/HTTP connections (sim.Conn + harness HTTP loop)"},
+		Rule: "one run = 1-2 real RTSP publishers on one path (the second replaces the first), 0-2 players, and an administrator who lists, deletes the stream through the API and lists again at tape-chosen moments; " +
+			"oracle: after the delete is answered, lookup (registry, RTSP DESCRIBE, API) never returns a closed stream, listings and counters equal the set of live registered streams, the deleted publisher's connection is closed. " +
+			"distinct = event-log hash; non-trivial = at least one pre-emption",
+		Assumptions:    []string{"counts are compared at quiescent moments"},
+		RequiredProbes: []string{"c05.api-delete"},
+	})
+}
+
+func buildC05API(tier string) sim.Scenario {
+	var sw *svcWorld
+	main := func(w *sim.World) {
+		w.PanicClass = "C05/panic"
+		tp := w.Tape
+		sw = newSvcWorld(w, false, tp.Bool(), []*auth.User{{Name: "admin", Password: "admin", Admin: true}}, nil)
+		tok, _, st := sw.login("login", "admin", "admin")
+		if tok == "" {
+			w.Fail("C05/api", "admin login failed: %d", st)
+			return
+		}
+		path := []string{"/live/p", "/Live/P", "/cam/door/1"}[tp.Choose(3)]
+		canon := strings.ToLower(path)
+		base := "rtsp://10.9.0.1:554" + path
+		publish := func(name string) *rtspClient {
+			cl := sw.rtspConnect(name, 1<<20)
+			for _, r := range []struct {
+				m, u string
+				h    map[string]string
+				b    string
+			}{
+				{"ANNOUNCE", base, map[string]string{"Content-Type": "application/sdp"}, sdpH264},
+				{"SETUP", base + "/streamid=0", map[string]string{"Transport": "RTP/AVP/TCP;unicast;interleaved=0-1;mode=record"}, ""},
+				{"RECORD", base, nil, ""},
+			} {
+				m, err := cl.do(r.m, r.u, r.h, r.b)
+				if err != nil || m.Status != 200 {
+					w.Fail("C05/harness", "%s %s: %v %+v", name, r.m, err, m)
+					return nil
+				}
+			}
+			return cl
+		}
+		sendFrames := func(cl *rtspClient, n int) error {
+			for i := 0; i < n; i++ {
+				var b bytes.Buffer
+				mkRTP(rtp.ChannelVideo, 96, uint16(i), uint32(i)*3000, true, nalH264(5, i, 40)).Write(&b, []int{0, 1, 2, 3})
+				if _, err := cl.c.Write(b.Bytes()); err != nil {
+					return err
+				}
+				w.Sleep(20 * time.Millisecond)
+			}
+			return nil
+		}
+		listing := func(where string) {
+			res := sw.httpDo("list", "GET", "/api/v1/streams?token="+tok, nil, "")
+			var l struct {
+				Total   int `json:"total"`
+				Streams []struct {
+					Path string `json:"path"`
+				} `json:"streams"`
+			}
+			if res.Status != 200 || json.Unmarshal(res.Body, &l) != nil {
+				w.Fail("C05/api", "%s: GET /api/v1/streams answered %d %s", where, res.Status, res.Body)
+				return
+			}
+			sc, _ := media.Count()
+			if l.Total != sc || len(l.Streams) != sc {
+				w.Fail("C05/listing", "%s: the API lists %d streams (total %d), the registry counts %d", where, len(l.Streams), l.Total, sc)
+				return
+			}
+			for _, s := range l.Streams {
+				g := media.Get(s.Path)
+				if g == nil || g.VerifStatus() != media.StreamOK {
+					w.Fail("C05/closed-stream-registered", "%s: the API lists %s, lookup gives %v (a closed or missing stream)", where, s.Path, g != nil)
+					return
+				}
+			}
+		}
+		a := publish("pubA")
+		if a == nil {
+			return
+		}
+		sendFrames(a, 3)
+		var bcl *rtspClient
+		if tp.Bool() {
+			bcl = publish("pubB") // replaces A on the same path
+			if bcl == nil {
+				return
+			}
+			sendFrames(bcl, 2)
+		}
+		nPlayers := tp.Choose(3)
+		var players []*rtspClient
+		for i := 0; i < nPlayers; i++ {
+			p := sw.rtspConnect(fmt.Sprintf("player%d", i), 256<<10)
+			if m, err := p.do("DESCRIBE", base, nil, ""); err != nil || m.Status != 200 {
+				w.Fail("C05/harness", "player DESCRIBE: %v %+v", err, m)
+				return
+			}
+			p.do("SETUP", base+"/streamid=0", map[string]string{"Transport": "RTP/AVP/TCP;unicast;interleaved=0-1"}, "")
+			p.do("PLAY", base, nil, "")
+			players = append(players, p)
+		}
+		listing("before the delete")
+		if w.Failed() {
+			return
+		}
+		w.Probe("c05.api-delete")
+		res := sw.httpDo("del", "DELETE", "/api/v1/streams"+canon+"?token="+tok, nil, "")
+		if res.Status != 200 {
+			w.Fail("C05/api", "DELETE /api/v1/streams%s answered %d", canon, res.Status)
+			return
+		}
+		// lookup right after the administrator was told the stream is gone
+		if g := media.Get(path); g != nil && g.VerifStatus() != media.StreamOK {
+			w.Fail("C05/closed-stream-registered", "after DELETE /api/v1/streams%s was answered 200, lookup of %s still returns the closed stream", canon, path)
+			return
+		}
+		late := sw.rtspConnect("late", 64<<10)
+		if m, err := late.do("DESCRIBE", base, nil, ""); err == nil && m.Status == 200 {
+			if g := media.Get(path); g == nil || g.VerifStatus() != media.StreamOK {
+				w.Fail("C05/closed-stream-registered", "after the delete a new player's DESCRIBE of %s was answered 200 from a closed stream", path)
+				return
+			}
+		}
+		late.c.Close()
+		listing("after the delete")
+		if w.Failed() {
+			return
+		}
+		// the deleted stream's publisher is cut off
+		pub := a
+		if bcl != nil {
+			pub = bcl
+		}
+		sendFrames(pub, 5)
+		w.Sleep(2 * time.Second)
+		pub.drain(time.Second)
+		if !pub.c.PeerClosed() {
+			w.Fail("C05/publisher-not-closed", "the publisher of the deleted stream can still send: its connection is open 3 s later")
+			return
+		}
+		for _, p := range players {
+			p.drain(2 * time.Second)
+			if !p.c.PeerClosed() {
+				w.Fail("C05/player-not-closed", "a player of the deleted stream still has an open connection")
+				return
+			}
+		}
+		a.c.Close()
+		w.Sleep(2 * time.Second)
+		listing("at the end")
+	}
+	cleanup := func(w *sim.World) { sw.teardown() }
+	return sim.Scenario{Main: main, Cleanup: cleanup}
 }
